@@ -234,6 +234,10 @@ def get_inert_ratio_prnc(cont):
         # we have to create a floating point contour anyway, we can just
         # create a copy here and be safe.
         cc = np.array(cont[ii], dtype=np.float64, copy=True)
+        # The principal inertia ratio is translation-invariant. Move the
+        # contour to the origin to avoid a loss of precision (cancellation)
+        # in the moments and in the rotation for large coordinates.
+        cc -= np.round(np.mean(cc, axis=0))
         moments = cont_moments_cv(cc)
 
         if moments is not None:
